@@ -200,6 +200,8 @@ pub enum Cmd {
     /// (rewrite lhs rhs :ruleset rs :name "r<id>") / birewrite — NOT in the Gallina model (link-only):
     /// sessions containing one are compared on the engine but produce no model case
     Rewrite { id: usize, rs: Option<Name>, lhs: Expr, rhs: Expr, bi: bool },
+    /// (unstable-combined-ruleset name subs..) — link-only like Rewrite
+    Combined(Name, Vec<Name>),
 }
 
 fn names_text(v: &[Name]) -> String {
@@ -267,10 +269,11 @@ impl Cmd {
                 },
                 id
             ),
+            Cmd::Combined(n, subs) => format!("(unstable-combined-ruleset {} {})", n.text(), names_text(subs)),
         }
     }
     pub fn is_modelled(&self) -> bool {
-        !matches!(self, Cmd::Rewrite { .. })
+        !matches!(self, Cmd::Rewrite { .. } | Cmd::Combined(..))
     }
     pub fn coq(&self) -> String {
         match self {
@@ -311,7 +314,7 @@ impl Cmd {
             Cmd::Push => "CPush".into(),
             Cmd::Pop => "CPop".into(),
             Cmd::PrintSize(n) => format!("CPrintSize {}", n.coq()),
-            Cmd::Rewrite { .. } => "CUNSUPPORTED".into(),
+            Cmd::Rewrite { .. } | Cmd::Combined(..) => "CUNSUPPORTED".into(),
         }
     }
     pub fn kind(&self) -> &'static str {
@@ -335,6 +338,7 @@ impl Cmd {
             Cmd::PrintSize(_) => "print-size",
             Cmd::Rewrite { bi: false, .. } => "rewrite",
             Cmd::Rewrite { bi: true, .. } => "birewrite",
+            Cmd::Combined(..) => "combined-ruleset",
         }
     }
     /// every name mentioned (for the observation universe)
@@ -419,6 +423,10 @@ impl Cmd {
                 }
                 ex(lhs, out);
                 ex(rhs, out);
+            }
+            Cmd::Combined(n, subs) => {
+                out.push(*n);
+                out.extend(subs.iter().copied());
             }
             _ => {}
         }
